@@ -2,6 +2,7 @@ package main
 
 import (
 	"fmt"
+	"go/token"
 	"strings"
 
 	"golang.org/x/tools/go/ssa"
@@ -134,6 +135,44 @@ func runC11(c *Ctx) {
 	checkMergeFns(c, eff)
 	checkIdentityMerge(c, eff)
 	checkEviction(c)
+	checkLoadHeuristic(c)
+}
+
+// R11.6
+func checkLoadHeuristic(c *Ctx) {
+	w := c.W
+	c.Doc("R11.6", "SubCache.Load refuses the cache file (forcing a rebuild) iff the index document count differs from the number of excerpts, and iff the stored format version differs")
+	fn := w.Method("cache", "SubCache", "Load")
+	if fn == nil {
+		c.Undecided("R11.6", "anchor:SubCache.Load", "cache", "not found")
+		return
+	}
+	c.seeFn(funcName(fn))
+	okCount, okVer := false, false
+	detail := "no comparison of the index document count with the number of excerpts"
+	for _, g := range cmpGuards(fn, nil) {
+		c.Sites++
+		gg, o := g.oriented(func(v ssa.Value) bool { return hasOriginCall(v, "repository.Index.DocCount", 0) != nil })
+		if o {
+			isLen := false
+			if cv, isC := stripConv(gg.Y).(*ssa.Call); isC {
+				if bi, isB := cv.Common().Value.(*ssa.Builtin); isB && bi.Name() == "len" && hasField(cv.Common().Args[0], "excerpts") {
+					isLen = true
+				}
+			}
+			if isLen && gg.Op == token.NEQ {
+				okCount = true
+			} else if isLen {
+				detail = "the cache file is refused iff docCount " + gg.Op.String() + " len(excerpts) (must be !=): an index with extra or missing documents is served as is"
+			}
+		}
+		g2, o2 := g.oriented(func(v ssa.Value) bool { return hasField(v, "Version") })
+		if o2 && hasField(g2.Y, "version") && g2.Op == token.NEQ {
+			okVer = true
+		}
+	}
+	c.Check(okCount, "R11.6", "SubCache.Load:count-mismatch-rebuilds", w.FnPos(fn), "fails iff docCount != len(excerpts)", detail)
+	c.Check(okVer, "R11.6", "SubCache.Load:version-mismatch-rebuilds", w.FnPos(fn), "fails iff the stored cache version differs", "a cache file of another format version is not refused")
 }
 
 func isErrorEmitReturn(r *ssa.Return) bool {
